@@ -1,4 +1,4 @@
-\* quick: strings <= 4 over 8 letters, names <= 3 over 9 letters, triples of 15 token kinds,
+\* quick: strings <= 4 over 8 letters, names <= 3 over 9 letters, triples of 16 token kinds,
 \* nesting depth 2; plain and pretty (+ content stream)
 INIT GenInit
 NEXT GenNext
@@ -9,7 +9,7 @@ CONSTANTS
   NameAlphabet = {35, 47, 32, 97, 49, 40, 0, 127, 128}
   MaxStr = 4
   MaxName = 3
-  TokKinds = {"null", "true", "false", "int", "negint", "real", "name", "namedig", "str", "hexstr", "arr", "dict", "ref", "nilarr", "nildict"}
+  TokKinds = {"null", "true", "false", "int", "negint", "real", "name", "namedig", "str", "hexstr", "arr", "dict", "ref", "refmax", "nilarr", "nildict"}
   MaxToks = 3
   OptSets = {{}, {"Pretty"}, {"ContentStream"}, {"Pretty", "ContentStream", "DictTypes", "TextStringUtf8", "TrimStandardFonts"}}
   RenderStrMax = 2
